@@ -29,7 +29,20 @@ def ref_dir(master):
 
 def gen_chunk(seed):
     r = rng.stream(seed, "c16-corpus")
-    return workload.gen_corpus(r, CHUNK, pbad=0.2, pgraph=0.15, names=NAMES)
+    calls = workload.gen_corpus(r, CHUNK, pbad=0.2, pgraph=0.15, names=NAMES)
+    for d in calls:  # some calls are made inside a with-block: the order / repetition of other calls must not matter for them either
+        if r.random() < 0.12 and not d["op"].startswith(("solve", "matches")):
+            d["ctx"] = r.choice([["numpy.einsum"], ["numpy.numpylike"], ["numpy", "numpy.einsum"]])
+    return calls
+
+
+def _execute(einx, d, state):
+    import contextlib
+
+    with contextlib.ExitStack() as es:
+        for n in d.get("ctx", ()):
+            es.enter_context(einx.backend.get(n))
+        return workload.execute(einx, d, state)
 
 
 def variant_plan(seed, variant, calls):
@@ -67,7 +80,7 @@ def run_index(i, master, cfg):
         for d in calls:
             seams.reset_world(0)
             before = seams.uuid_draws()
-            o = outcome.capture(lambda: workload.execute(einx, d, {}))
+            o = outcome.capture(lambda: _execute(einx, d, {}))
             outs.append(o)
             letters = {c for c in d["desc"] if c.isalpha()}
             nontrivial.append(bool(seams.uuid_draws() - before > 0 or len(letters) >= 2))
@@ -118,7 +131,7 @@ def run_sequence(case, refs, focus):
     cs = case.get("env", {}).get("cache_size", -1)
     for k, d in enumerate(case["calls"]):
         keep = _noise(case["noise"][k])
-        o = outcome.capture(lambda: workload.execute(einx, d, state))
+        o = outcome.capture(lambda: _execute(einx, d, state))
         del keep
         stats["executions"] += 1
         sg = workload_sig(d)
@@ -137,9 +150,9 @@ def run_sequence(case, refs, focus):
                 stats["float_tolerance_used"] += 1
         if case["graph_twice"][k] and d["op"] not in ("solve_axes", "solve_shapes", "matches") and (focus is None or k == focus):
             g = dict(d, graph=True)
-            a = outcome.capture(lambda: workload.execute(einx, g, state))
+            a = outcome.capture(lambda: _execute(einx, g, state))
             keep = _noise(case["noise"][k] + 7)
-            b = outcome.capture(lambda: workload.execute(einx, g, state))
+            b = outcome.capture(lambda: _execute(einx, g, state))
             del keep
             stats["graph_pairs"] += 1
             if cs == 0:
@@ -162,7 +175,7 @@ def reference_outcomes(calls, ref_env):
 
     outs = []
     for d in calls:
-        p = subprocess.run([sys.executable, os.path.join(VERIF, "sim", "refproc.py")], input=json.dumps({"items": [{"d": d}]}).encode(), capture_output=True,
+        p = subprocess.run([sys.executable, os.path.join(VERIF, "sim", "refproc.py")], input=json.dumps({"items": [{"d": d, "ctx": d.get("ctx", [])}]}).encode(), capture_output=True,
                            env=driver.base_env(hashseed=ref_env.get("hashseed", 0), cache_size=ref_env.get("cache_size")), timeout=300)
         outs.append(json.loads(p.stdout)["outcomes"][0])
     return outs
